@@ -99,6 +99,7 @@ func (s *Store) AddMessage(message storage.Message) (id string, err error) {
 	// Messages evicted by the cap must leave the size enforcer's accounting too.
 	for _, old := range evicted {
 		s.enforcerRemove(old)
+		s.emitDeleted(old)
 	}
 	s.enforcerDeliver(m)
 	return id, err
@@ -177,6 +178,11 @@ func (s *Store) PurgeMessages(mailbox string) error {
 	}
 
 	return nil
+}
+
+// emitDeleted notifies extensions that m is gone.
+func (s *Store) emitDeleted(m *Message) {
+	s.extHost.Events.AfterMessageDeleted.Emit(message.MakeMetadata(m))
 }
 
 // removeMessage deletes a single message without notifying the size enforcer.  Returns the message
